@@ -18,6 +18,11 @@ type CodecCase struct {
 	Seed int64           `json:"seed"`
 	Fill json.RawMessage `json:"fill"`
 	Doc  string          `json:"doc"` // base64
+	// Disc / Tags: the value is a top-level discriminated oneOf; after the random fill the chosen variant's
+	// discriminator property is set to one of the values the specification declares for that variant
+	// (Tags is keyed by the normalised variant type name).
+	Disc string              `json:"disc,omitempty"`
+	Tags map[string][]string `json:"tags,omitempty"`
 }
 
 func RunCodec(reg Registry, rec *Recorder, cs []CodecCase) {
@@ -48,7 +53,14 @@ func RunCodec(reg Registry, rec *Recorder, cs []CodecCase) {
 						return
 					}
 				} else {
-					RandomFill(v.Elem(), newRng(c.Seed), 0)
+					rng := newRng(c.Seed)
+					RandomFill(v.Elem(), rng, 0)
+					if c.Disc != "" {
+						if err := setDiscriminator(v.Elem(), c.Disc, c.Tags, rng); err != nil {
+							ev["driverError"] = err.Error()
+							return
+						}
+					}
 				}
 				ev["v"] = Project(v.Elem())
 				bs, err := json.Marshal(v.Interface())
@@ -117,4 +129,29 @@ func RunCodec(reg Registry, rec *Recorder, cs []CodecCase) {
 		}()
 		rec.Emit(ev)
 	}
+}
+
+// setDiscriminator gives the set variant of a oneOf value one of its declared discriminator values.
+func setDiscriminator(v reflect.Value, disc string, tags map[string][]string, rng interface{ Intn(int) int }) error {
+	if v.Kind() != reflect.Struct || !isOneOfShape(v.Type()) {
+		return fmt.Errorf("setDiscriminator: %s is not a oneOf", v.Type())
+	}
+	for i := 0; i < v.NumField(); i++ {
+		if !v.Field(i).Field(0).Bool() {
+			continue
+		}
+		inner := v.Field(i).Field(1)
+		tg := tags[Norm(inner.Type().Name())]
+		if len(tg) == 0 {
+			return fmt.Errorf("setDiscriminator: no tags for variant %s", inner.Type().Name())
+		}
+		for k := 0; k < inner.NumField(); k++ {
+			if Norm(inner.Type().Field(k).Name) == Norm(disc) && inner.Field(k).Kind() == reflect.String {
+				inner.Field(k).SetString(tg[rng.Intn(len(tg))])
+				return nil
+			}
+		}
+		return fmt.Errorf("setDiscriminator: variant %s has no string field %q", inner.Type().Name(), disc)
+	}
+	return fmt.Errorf("setDiscriminator: no variant set")
 }
